@@ -32,7 +32,7 @@ type c08Case struct {
 // ---------- generator ----------
 
 func genC08(t *rapid.T) c08Case {
-	in := GenIntent(t)
+	in := GenIntentOpt(t, IntentOpts{EpAnnos: true})
 	lay := c04Partition(t, in) // blocks, re-opened types/REST paths/endpoints, files, import DAG
 	redeclared := c08RedeclareFields(t, lay)
 	repeated, emptyRepeated := c08RepeatAnnotations(t, lay)
